@@ -308,8 +308,32 @@ def statusTouch (c : StatusCfg) (body patch : J) (value : J) : Except Err J :=
   else if !(pyEq (resolveD body c.touchField) value) then liftD (ensure patch c.touchField value)
   else .ok patch
 
-/-- since dbb523b the touch field is removed from the essence as well -/
+/-- `try: dicts.remove(essence, field)  except TypeError: pass` (kopf 571b1b2): a field hidden behind a
+    non-mapping value (`status: "a string"`, `status.kopf: 7`, `status: null`) is not there — nothing
+    is removed and nothing is raised. `dicts.remove` changes its argument only in its LAST step (the
+    `del` at the end of the path, then the empty parents on the way back), so when it raises the
+    essence is still as it was. Any other error (the empty path: ValueError) still propagates. -/
+def removeLenient (e : J) (f : Path) : Except Err J :=
+  match remove e f with
+  | .ok e' => .ok e'
+  | .error .typeError => .ok e
+  | .error err => liftD (.error err)
+
+/-- `StatusProgressStorage.clear`: since dbb523b the touch field is removed from the essence as well;
+    since 571b1b2 each of the two removals is skipped when its field is hidden behind a non-mapping
+    value (each on its own: a hidden `field` does not keep the `touch_field` in the essence). -/
 def statusClear (c : StatusCfg) (essence : J) : Except Err J :=
+  match removeLenient essence c.field with
+  | .ok e =>
+    match removeLenient e c.touchField with
+    | .ok e2 => removeEmptyStanzas e2
+    | .error err => .error err
+  | .error e => .error e
+
+/-- the variant before 571b1b2 (kept for the regression theorem `clear_hidden_regression`): the
+    TypeError of `dicts.remove` went out of `clear`, and with it out of the detection of the cause —
+    the object was never handled again (C04-F13) -/
+def statusClearStrict (c : StatusCfg) (essence : J) : Except Err J :=
   match liftD (remove essence c.field) with
   | .ok e =>
     match liftD (remove e c.touchField) with
